@@ -12,15 +12,23 @@ import (
 // implementer type and each implementer method is verified to return it.
 
 type methSig struct {
-	fname string
-	args  []string
-	ret   string
-	owner *types.Named
-	ghost bool
+	fname  string
+	args   []string
+	ret    string
+	owner  *types.Named
+	ghost  bool
+	fnames []string // one symbol per result (multi-result methods)
+	rets   []string
 }
 
 // methodUF resolves method `name` on interface type `in` (own, embedded, or ghost method).
 func (x *Exec) methodUF(in *types.Named, name string) (*methSig, bool) {
+	// Name#k selects the k-th result of a multi-result method
+	sel := 0
+	if i := strings.Index(name, "#"); i > 0 {
+		fmt.Sscanf(name[i+1:], "%d", &sel)
+		name = name[:i]
+	}
 	var found *methSig
 	var visit func(n *types.Named) bool
 	visit = func(n *types.Named) bool {
@@ -56,15 +64,24 @@ func (x *Exec) methodUF(in *types.Named, name string) (*methSig, bool) {
 				continue
 			}
 			sig := m.Type().(*types.Signature)
-			if sig.Results().Len() != 1 {
+			if sig.Results().Len() < 1 || sel >= sig.Results().Len() {
 				return false
 			}
 			ms := &methSig{owner: n}
 			for j := 0; j < sig.Params().Len(); j++ {
 				ms.args = append(ms.args, x.sortOf(sig.Params().At(j).Type()))
 			}
-			ms.ret = x.sortOf(sig.Results().At(0).Type())
-			ms.fname = "im_" + sanitize(qualName(n)+"."+name+"_"+strings.Join(ms.args, "_")+"_"+ms.ret)
+			for k := 0; k < sig.Results().Len(); k++ {
+				rs := x.sortOf(sig.Results().At(k).Type())
+				fn := "im_" + sanitize(qualName(n)+"."+name+"_"+strings.Join(ms.args, "_")+"_"+rs)
+				if k > 0 {
+					fn += fmt.Sprintf("_r%d", k)
+				}
+				ms.fnames = append(ms.fnames, fn)
+				ms.rets = append(ms.rets, rs)
+			}
+			ms.ret = ms.rets[sel]
+			ms.fname = ms.fnames[sel]
 			found = ms
 			return true
 		}
@@ -79,7 +96,12 @@ func (x *Exec) methodUF(in *types.Named, name string) (*methSig, bool) {
 	if found == nil {
 		return nil, false
 	}
-	x.d.fun(found.fname, append([]string{"Ref"}, found.args...), found.ret)
+	if len(found.fnames) == 0 {
+		found.fnames, found.rets = []string{found.fname}, []string{found.ret}
+	}
+	for k, fn := range found.fnames {
+		x.d.fun(fn, append([]string{"Ref"}, found.args...), found.rets[k])
+	}
 	return found, true
 }
 
